@@ -16,7 +16,8 @@ ENGINE = "E3-crash-and-fault-enumeration"
 TECHNIQUE = "exhaustive crash-point enumeration over the recorded file-system effect log of the real write path + exhaustive sidecar corruption"
 RULE = ("crash cases = (pre-state, completed first operation or none, crashing operation, crash point): pre-states = {no "
         "sidecar, {a:1}, three keys with a non-ASCII value, sidecar shared by two files differing by extension, neighbouring "
-        "sidecars of the version folder and a movie file}; operations = set(e,a=2), set(e,b=1), set(e,a=2,b=1), set(e,'a',2,c=3,d=4), update(e,{a:2,b:2}), "
+        "sidecars of the version folder and a movie file, the file's other state existing as a symbolic link to the file (with and "
+        "without data of its own)}; operations = set(e,a=2), set(e,b=1), set(e,a=2,b=1), set(e,'a',2,c=3,d=4), update(e,{a:2,b:2}), "
         "create(e,{a:1}) on the file / its extension sibling / the version folder; crash points = every prefix of the "
         "recorded effect log, every append cut at every byte boundary. corruption cases = every pre-state sidecar x {cut at "
         "each byte 0..n-1, directory, PermissionError, EIO, invalid UTF-8}. distinct = distinct crash states / corruptions; "
@@ -31,7 +32,10 @@ PRE = {
     "three-keys": {"F1": {"a": 1, "name": "Ophélie", "n": [1, 2]}},
     "shared": {"F2": {"a": 1, "from": "F2"}},
     "neighbours": {"F1": {"a": 1}, "V1": {"v": 1}, "M1": {"m": 1}},
+    "linked": {"F1": {"a": 1, "from": "F1"}},          # and L1 (the file in its other state) exists as a symbolic link to F1's file
+    "linked-both-data": {"F1": {"a": 1, "from": "F1"}, "L1": {"a": 8, "from": "L1"}},
 }
+LINK_OPS = [["set", "L1", {"a": 5}], ["update", "L1", {"a": 7, "b": 2}]]
 OPS = [["set", "F1", {"a": 2}], ["setkw", "F1", {"b": 1}], ["update", "F1", {"a": 2, "b": 2}], ["set", "F2", {"a": 3}], ["update", "V1", {"v": 2}],
        ["create", "F3", {"a": 1}], ["setkw", "F1", {"a": 2, "b": 1}], ["setmix", "F1", {"a": 2, "c": 3, "d": 4}]]
 FIRSTS = [None, ["set", "F1", {"z": 0}]]
@@ -43,7 +47,7 @@ BIG = ["update", "F1", {"big": "x" * 9000, "a": 2}]   # more than one buffer: th
 def histories(tier="quick"):
     for pn in PRE:
         for first in FIRSTS:
-            for op in OPS:
+            for op in OPS + (LINK_OPS if pn.startswith("linked") else []):
                 yield [pn, first, op]
     if tier == "thorough":
         yield ["a1", None, BIG]
@@ -58,6 +62,8 @@ def build_pre(C, pn):
     pr = C["prs"][c0]
     ents = [C["E"][k] for k in ("F1", "F2", "M1", "V1", "D1")]
     tree.materialize(C["ref"], pr, ents)
+    if pn.startswith("linked") and "L1" in C["E"]:
+        os.symlink(tree.entity_path(C["ref"], pr, C["E"]["F1"])[0], tree.entity_path(C["ref"], pr, C["E"]["L1"])[0])
     for k, d in PRE[pn].items():
         p = tree.entity_path(C["ref"], pr, C["E"][k])[0]
         with open(pr.sidecar(p), "w") as f:
@@ -71,7 +77,9 @@ def reads(C):
     env.reset()
     c0 = C["names"][0]
     out = {"data": {}, "find": {}}
-    for k in ("F1", "F2", "F3", "M1", "V1", "D1"):
+    for k in ("F1", "F2", "F3", "M1", "V1", "D1", "L1"):
+        if k not in C["E"]:
+            continue
         try:
             out["data"][k] = GetFromPaths(c0).get_data(C["E"][k])
         except Exception as e:  # noqa
@@ -85,6 +93,14 @@ def reads(C):
 
 
 def sidecar_key(C, k):
+    from mc import tree
+    pr = C["prs"][C["names"][0]]
+    # as the statement scopes it: the entity's path without its final extension (not what the configuration answers)
+    return os.path.splitext(tree.entity_path(C["ref"], pr, C["E"][k])[0])[0]
+
+
+def sidecar_file(C, k):
+    """Where the configuration keeps the data file of the entity (the location is the configuration's business)."""
     from mc import tree
     pr = C["prs"][C["names"][0]]
     return pr.sidecar(tree.entity_path(C["ref"], pr, C["E"][k])[0])
@@ -180,7 +196,7 @@ def run_corruption(C, case, rec):
     pr = C["prs"][c0]
     build_pre(C, pn)
     old = reads(C)
-    sc = sidecar_key(C, k)
+    sc = sidecar_file(C, k)
     text = json.dumps(PRE[pn][k], indent=4, default=str).encode()
     faults = {}
     if kind == "cut":
@@ -205,7 +221,7 @@ def run_corruption(C, case, rec):
         got = reads(C)
     finally:
         faultfs.uninstall()
-    same = [x for x in old["data"] if sidecar_key(C, x) == sc]
+    same = [x for x in old["data"] if sidecar_key(C, x) == sidecar_key(C, k)]
     viols = []
     for x in got["data"]:
         if x in same:
